@@ -541,17 +541,17 @@ def profiles(tier, seed, light=False):
         # counting, tiny patched limits (C16)
         P.append(dict(cb, M=3, K=2, H=5, ntables=8, cellmax=3, totmax=5, amts=[1, 2, 4], maxn=6, maxdepth=3, patch_limits=True, keys=["a", "b"]))
     else:
-        P.append(dict(base, M=3, K=2, H=3, ntables=0, exhaustive=True, keys=["a", "b"], kinds=("mem", "mem"), maxdepth=5))
-        P.append(dict(base, M=2, K=1, H=3, ntables=0, exhaustive=True, kinds=("mem", "disk"), maxdepth=5))
+        P.append(dict(base, M=3, K=2, H=3, ntables=0, exhaustive=True, keys=["a", "b"], kinds=("mem", "mem"), maxdepth=4))
+        P.append(dict(base, M=2, K=1, H=3, ntables=0, exhaustive=True, kinds=("mem", "disk"), maxdepth=4))
         for (M, K, H, kinds) in [(3, 2, 5, ("mem", "mem")), (4, 3, 7, ("disk", "disk")), (7, 5, 13, ("mem", "disk")), (8, 2, 17, ("disk", "mem")),
                                  (9, 2, 20, ("mem", "mem")), (16, 2, 33, ("mem", "disk")), (17, 2, 40, ("mem", "mem")), (15, 2, 31, ("disk", "mem"))]:
-            P.append(dict(base, M=M, K=K, H=H, ntables=30, kinds=kinds, maxdepth=4))
+            P.append(dict(base, M=M, K=K, H=H, ntables=16, kinds=kinds, maxdepth=4))
         cb = dict(base, counting=True, amts=[1, 2], cellmax=1000, totmax=1000, maxn=3, maxdepth=4)
-        P.append(dict(cb, M=3, K=2, H=3, ntables=0, exhaustive=True, keys=["a", "b"]))
+        P.append(dict(cb, M=3, K=2, H=3, ntables=0, exhaustive=True, keys=["a", "b"], maxdepth=3))
         for (M, K, H) in [(3, 2, 5), (4, 3, 7), (8, 2, 17), (5, 2, 9)]:
-            P.append(dict(cb, M=M, K=K, H=H, ntables=25))
+            P.append(dict(cb, M=M, K=K, H=H, ntables=8))
         for (M, K, H) in [(3, 2, 5), (2, 1, 3), (4, 3, 7)]:
-            P.append(dict(cb, M=M, K=K, H=H, ntables=30, cellmax=3, totmax=5, amts=[1, 2, 4, 7], maxn=8, maxdepth=4, patch_limits=True, keys=["a", "b"]))
+            P.append(dict(cb, M=M, K=K, H=H, ntables=8, cellmax=3, totmax=5, amts=[1, 2, 4, 7], maxn=8, maxdepth=4, patch_limits=True, keys=["a", "b"]))
     # the strategies the properties quantify over, on real text / bytes keys (table = the strategy's own answers)
     strat = ["fnv", "md5", "sha256", "deco_int", "handwritten"] if tier == "quick" else ["fnv", "md5", "sha256", "deco_int", "deco_bytes", "handwritten"]
     geos = [(7, 5), (9, 2)] if tier == "quick" else [(3, 2), (7, 5), (8, 2), (9, 2), (17, 2), (13, 5)]
